@@ -369,6 +369,8 @@ class Interp:
             return fn(*args, **kwargs)
         mod = getattr(fn, "__module__", "") or ""
         name = getattr(fn, "__qualname__", getattr(fn, "__name__", repr(fn)))
+        if mod.startswith("pyvc") or mod.startswith("contracts") or mod.startswith("spec"):
+            return fn(*args, **kwargs)
         if (mod, name) in self.session.proxy_safe or mod.split(".")[0] in ("operator", "_operator", "itertools", "functools", "collections"):
             return fn(*args, **kwargs)
         cur().havoc_used = True
